@@ -43,6 +43,37 @@ def val(i):
     return i[0] * 10000 + i[1]
 
 
+def duplicate_typed_case(item):
+    """duplicate of a resource holding every kind of typed value (sub-second times, zone-aware datetimes, decimals, nested containers):
+    the copy is an EXACT copy - value by value and type by type - whatever batch_size / duplicate_to_end"""
+    import datetime
+    import decimal
+    import dataflows as DF
+    from dataflows import Flow
+    from ..common import tuple_source
+    setup_repo()
+    tz = datetime.timezone(datetime.timedelta(hours=-5), 'EST')
+    rows = [dict(i=k, dt=datetime.datetime(2020, 1, 2, 3, 4, 5, 123456 + k, tzinfo=tz if k % 2 else None), t=datetime.time(1, 2, 3, 500000 + k),
+                 d=datetime.date(2020, 2, k + 1), dec=decimal.Decimal('1.%020d' % k), arr=[k, [decimal.Decimal('0.1')], None], obj=dict(z=dict(y=k)),
+                 dur=datetime.timedelta(days=k, microseconds=7)) for k in range(item['n'])]
+    fields = [('i', 'integer'), ('dt', 'datetime'), ('t', 'time'), ('d', 'date'), ('dec', 'number'), ('arr', 'array'), ('obj', 'object'), ('dur', 'duration')]
+    try:
+        with contextlib.redirect_stdout(io.StringIO()):
+            import copy
+            ds = Flow(tuple_source([('orig', fields, copy.deepcopy(rows))]), DF.duplicate('orig', 'copy', duplicate_to_end=item['to_end'], batch_size=item['batch'])).datastream()
+            out = [[dict(r) for r in res] for res in ds.res_iter]
+    except Exception as e:
+        return dict(ok=False, why='raised %s: %s' % (type(e).__name__, str(e)[:150]))
+    if len(out) != 2:
+        return dict(ok=False, why='%d resources after duplicate' % len(out))
+    for label, got in (('original', out[0]), ('copy', out[1])):
+        if got != rows or [[type(v).__name__ for v in r_.values()] for r_ in got] != [[type(v).__name__ for v in r_.values()] for r_ in rows] or \
+                [str(r_['dt'].utcoffset()) for r_ in got] != [str(r_['dt'].utcoffset()) for r_ in rows]:
+            bad = next((k for k, (a, b) in enumerate(zip(got, rows)) if a != b), 0)
+            return dict(ok=False, why='the %s emitted by duplicate is not the resource that went in' % label, got=repr(got[bad])[:300] if got else None, want=repr(rows[bad])[:300] if rows else None)
+    return dict(ok=True)
+
+
 def sources_named_case(item):
     """sources() whose source brings NAMED resources: one whose name is the very name the step would generate next, and one that collides
     with an existing resource - the combined package has unique names, every resource keeps its own descriptor and rows, and later
@@ -410,6 +441,12 @@ def run():
             rep.violation(it, dict(op=it['case']['op'], arg=it['case']['arg'], package=it['case']['pkg'], variant=it['variant'],
                                    **{k: v for k, v in out.items() if k != 'ok'}), category='%s/%s' % (it['case']['op'], out['why'][:40]))
     rep.sample(dict(case=dict(pkg=items[0]['case']['pkg'], op=items[0]['case']['op'], arg=items[0]['case']['arg'], names=items[0]['case']['names'])))
+    for it in [dict(duplicate_typed=True, n=n, to_end=te, batch=b) for n in (0, 1, 3) for te in (False, True) for b in (1, 2, 1000)]:
+        out = duplicate_typed_case(it)
+        rep.count(1, traces=1)
+        rep.mark_distinct(it)
+        if not out['ok']:
+            rep.violation(it, dict(case=it, **{k: v for k, v in out.items() if k != 'ok'}), category='duplicate-typed/%s' % out['why'][:40])
     for it in [dict(sources_named=True, n=n) for n in (1, 2, 3, 4)]:
         out = sources_named_case(it)
         rep.count(1, traces=1)
@@ -465,7 +502,7 @@ def replay(path):
     setup_repo()
     rec = json.load(open(path))
     c = rec['case']
-    out = (sources_named_case(c) if c.get('sources_named') else replay_case(c) if 'case' in c else twin_case(c['twin']) if 'twin' in c else rename_case(c) if 'follow' in c
+    out = (duplicate_typed_case(c) if c.get('duplicate_typed') else sources_named_case(c) if c.get('sources_named') else replay_case(c) if 'case' in c else twin_case(c['twin']) if 'twin' in c else rename_case(c) if 'follow' in c
            else sources_case(c) if 'k' in c else after_delete_case(c))
     print(json.dumps(out, default=str)[:1500])
     if not out['ok']:
